@@ -49,3 +49,6 @@ Definition pattern_sel (k : nat) (l : lang) (ty t : str) : bool := matches_reser
 (* the same call through the regenerated step list *)
 Definition strop_sel_pipeline (k : nat) (l : lang) : str -> str -> res :=
   run_pipeline py_uni py_isspace (cfg_sel k l) strop_pipeline.
+
+(* Language.filter_id(instance, id_type) of the three targets: strop(default_filter_id_for_target(instance), id_type) *)
+Definition filter_id (l : lang) (i : inst) (id_type : str) : res := strop_lang l id_type (default_filter_id i).
